@@ -169,7 +169,11 @@ func (g *Generator) generateSchemaRefFor(parents []*theTypeInfo, t reflect.Type,
 		return nil, err
 	}
 	if ref != nil {
-		g.Types[t] = ref
+		// The schema of a pointer at the root is not nullable: do not offer it to later pointer positions
+		// (fields, elements) of the same type when the generator is used again.
+		if !(cap(parents) == 0 && t.Kind() == reflect.Ptr) {
+			g.Types[t] = ref
+		}
 		g.SchemaRefs[ref]++
 	}
 	return ref, nil
